@@ -1159,7 +1159,8 @@ def run_a2a_forms(ctx, lib, res, stats):
 
 
 def check_semw(res, c, sem, m, aq, stats):
-    """the Lean reference semantics SemW (lean/QV/Model/Sem.lean, the one the theorem C01_expr speaks of) against
+    """the Lean reference semantics SemW / SemT (lean/QV/Model/Sem.lean, SemT.lean: the ones the theorems C01_expr /
+    C01_expr_struct speak of; SemT = SemW widened to tuples and Qchar) against
     (a) the independent python oracle: every bit pysem claims (exact, or low bits of wrap-around arithmetic) must be
         SemW's bit;  (b) the Lean translator model without quirks reached: all bits, every row (what C01_expr proves
         on its fragment, observed on the wider one).  Rows where SemW gives no meaning (outside its fragment) are
@@ -1175,6 +1176,26 @@ def check_semw(res, c, sem, m, aq, stats):
     if any(r is not None for r in rows):
         stats["semw_defined_programs"] += 1
     stats["semw_rows_undefined"] += sum(1 for r in rows if r is None)
+    # `rows` is the widened semantics SemT (tuples, Qchar; lean/QV/Model/SemT.lean); the driver has checked that it
+    # equals SemW wherever SemW alone gives a meaning (`semw_rows_defined` rows).  Which programs the theorems cover:
+    # C01_body (straightLine) / C01_body_struct (structLine + wellProg on every row), accepted by the model
+    for k_ in ("semw_only_defined_programs", "semt_rows_beyond_semw", "thm_straight_line_programs",
+               "thm_struct_line_programs", "thm_struct_not_straight_programs"):
+        stats.setdefault(k_, 0)
+    if sem.get("semw_rows_defined"):
+        stats["semw_only_defined_programs"] += 1
+    stats["semt_rows_beyond_semw"] += sum(1 for r in rows if r is not None) - (sem.get("semw_rows_defined") or 0)
+    accepted = m is not None and "error" not in m and "driver_error" not in m
+    if accepted and sem.get("straight_line"):
+        stats["thm_straight_line_programs"] += 1
+    if accepted and sem.get("struct_line") and sem.get("well"):
+        stats["thm_struct_line_programs"] += 1
+        if not sem.get("straight_line"):
+            stats["thm_struct_not_straight_programs"] += 1
+            if any(r is None for r in rows):
+                res.disagree(case_json(c), "Lean SemT gives no meaning to a program that satisfies every hypothesis of "
+                             "C01_body_struct (the statement of the theorem fails on this input)", model=rows[:4])
+                return
     # (a) against pysem
     if c.expected is not None and c.oracle == "ok" and len(c.expected) == len(rows):
         for k, (exp, got) in enumerate(zip(c.expected, rows)):
